@@ -141,7 +141,54 @@ func c09Follow(vm *ds.Context, src string) (o c09Obs) {
 	return
 }
 
+// c09AliasWitnesses are the fixed witnesses of the one open finding of C09: the JSON form is a
+// tree, so two variables that shared one container hold separate copies after a restore, and a
+// follow-up program that writes through one and reads through the other behaves differently.
+// (Randomly generated states with such sharing are compared structurally only.)
+var c09AliasWitnesses = [][2]string{
+	{"log = []; sheet = {'log': log}", "log.push(1); sheet.log.len()"},
+	{"xs = [1, 2]; ys = xs", "ys.push(3); xs.len()"},
+	{"dd = {'k': 1}; box = [dd]", "dd.k = 5; box[0].k"},
+}
+
+func c09AliasWitness(w *fw.W, idx int) {
+	st, follow := c09AliasWitnesses[idx][0], c09AliasWitnesses[idx][1]
+	desc := fmt.Sprintf("aliasing witness state=%q follow=%q", st, follow)
+	w.Begin(idx, desc)
+	cfg := AllDice()
+	cfg.OpLimit = 30000
+	a, b := c09NewVM(cfg), c09NewVM(cfg)
+	var err error
+	var snap []byte
+	pv, stk := fw.Guard(func() {
+		if err = a.Run(st); err == nil {
+			if snap, err = a.Attrs.ToJSON(); err == nil {
+				err = json.Unmarshal(snap, b.Attrs)
+			}
+		}
+	})
+	w.Eval(1)
+	w.Count("alias_witnesses", 1)
+	if pv != nil {
+		w.Violate(idx, "panic", fw.PanicKey(pv, stk), desc, fmt.Sprint(pv), nil)
+		return
+	}
+	if err != nil {
+		w.Violate(idx, "json", "json|snapshot-error", desc, err.Error(), nil)
+		return
+	}
+	oa, ob := c09Follow(a, follow), c09Follow(b, follow)
+	if oa != ob {
+		w.Violate(idx, "json", "json|aliasing-lost", desc, fmt.Sprintf("original %+v\nrestored %+v", oa, ob), nil)
+	}
+	w.Note(fw.Hash64(desc))
+}
+
 func c09Case(w *fw.W, idx int, r *fw.Rand) {
+	if idx < len(c09AliasWitnesses) {
+		c09AliasWitness(w, idx)
+		return
+	}
 	if idx%10 == 9 {
 		c09Unrepresentable(w, idx, r)
 		return
